@@ -1,6 +1,7 @@
 package main
 
 import (
+	"os/exec"
 	"math/rand"
 	"os"
 	"path/filepath"
@@ -322,8 +323,29 @@ func runC18Twins() string {
 	}
 	f := snapString(snapshot(full.Proto)) + "|" + snapString(snapshot(full.Conf))
 	i := snapString(snapshot(incr.Proto)) + "|" + snapString(snapshot(incr.Conf))
-	if f == i {
-		return "same"
+	if f != i {
+		return "differ twins"
 	}
-	return "differ twins"
+	// the same incremental run through the command line (the tableauc binary built from the current tree)
+	if bin := os.Getenv("VERIF_TABLEAUC"); bin != "" {
+		cli := newWorkspace()
+		defer cli.cleanup()
+		tree(cli)
+		cfg := filepath.Join(cli.Root, "config.yaml")
+		protoDir := filepath.ToSlash(cli.Proto)
+		os.WriteFile(cfg, []byte("lang: en\nlocationName: UTC\nlog:\n  level: ERROR\n  mode: SIMPLE\n  sink: CONSOLE\nproto:\n  input:\n    formats: [\"csv\"]\n    protoPaths: [\""+protoDir+"\"]\n  output:\n    subdir: proto\n    filenameWithSubdirPrefix: true\nconf:\n  input:\n    protoPaths: [\""+protoDir+"\"]\n    protoFiles: [\""+protoDir+"/*.proto\"]\n    formats: [\"csv\"]\n  output:\n    subdir: conf\n    formats: [\"json\"]\n"), 0o644)
+		args := append([]string{"-p", "protoconf", "-i", cli.In, "-o", cli.Root, "-c", cfg}, paths...)
+		cmd := exec.Command(bin, args...)
+		if out, err := cmd.CombinedOutput(); err != nil {
+			if os.Getenv("VERIF_DEBUG") != "" {
+				println("CLI", string(out))
+			}
+			return "err cli"
+		}
+		c := snapString(snapshot(cli.Proto)) + "|" + snapString(snapshot(cli.Conf))
+		if c != f {
+			return "differ cli"
+		}
+	}
+	return "same"
 }
